@@ -29,9 +29,11 @@ class Unsupported(Exception):
 
 
 class RadNF:
-    def __init__(self):
+    def __init__(self, units=()):
         self.gens = {}        # (poly expr, q) -> generator symbol
         self.defs = {}        # generator -> (poly expr, q)
+        for s in units:       # sign symbols: s**2 == 1
+            self.defs[s] = (sp.Integer(1), 2)
 
     def gen(self, f, q):
         key = (sp.srepr(f), q)
